@@ -265,6 +265,17 @@ Definition wf_call (n : node) : bool :=
       end
   end.
 
+(* receiver base types as the type checker accepts them: parentheses, pointers, a name, an instantiation *)
+Fixpoint recv_shape (e : node) : bool :=
+  match e with
+  | Nd TParen _ _ _ _ _ (NC x NN) => recv_shape x
+  | Nd TStar _ _ _ _ _ (NC x NN) => recv_shape x
+  | Nd TIdent _ _ _ _ _ _ => true
+  | Nd TIndex _ _ _ _ _ (NC x _) => recv_shape x
+  | Nd TIndexList _ _ _ _ _ (NC x _) => recv_shape x
+  | _ => false
+  end.
+
 Definition wf_node (n : node) : bool :=
   let ks := kids n in
   match ntag n with
@@ -308,7 +319,15 @@ Definition wf_node (n : node) : bool :=
       N.leb (na n) 1 && N.leb (nb n) 1 && Nat.eqb (length ks) (N.to_nat (na n) + 2 + N.to_nat (nb n)) &&
       (* a method has exactly one receiver field *)
       (if N.eqb (na n) 1 then
-         match ks with r :: _ => is_tag TFieldList r && match kids r with [fl] => true | _ => false end | [] => false end
+         match ks with
+         | r :: _ =>
+             is_tag TFieldList r &&
+             match kids r with
+             | [fl] => match nth_error (kids fl) (N.to_nat (na fl)) with Some ty => recv_shape ty | None => false end
+             | _ => false
+             end
+         | [] => false
+         end
        else true) &&
       match nth_error ks (N.to_nat (na n)), nth_error ks (N.to_nat (na n) + 1) with
       | Some nm, Some ty => is_tag TIdent nm && is_tag TFuncType ty
